@@ -173,6 +173,9 @@ type ImageSel struct {
 	Subset     []int  `json:"subset,omitempty"`
 	All        bool   `json:"all,omitempty"`
 	SubsetSeed uint64 `json:"subset_seed,omitempty"`
+	// Enumerate: one image per subset of the flush's page writes (only when the
+	// write set has at most 6 pages; larger flushes fall back to SubsetSeed)
+	Enumerate bool `json:"enumerate,omitempty"`
 	// Cont: what happens after recovery (statements, directives, nested images)
 	Cont *Plan `json:"cont,omitempty"`
 }
@@ -221,6 +224,8 @@ type Violation struct {
 	// Chain: site descriptions of the crash images this world descends from
 	// (outermost first, the violation's own image excluded)
 	Chain []map[string]string `json:"chain,omitempty"`
+	// SelChain: the resolved (explicit) selectors of the images on ImgPath
+	SelChain []ImageSel `json:"sel_chain,omitempty"`
 	StmtIdx  int               `json:"stmt_idx"`
 }
 
